@@ -595,6 +595,7 @@ INVARIANT EvolvingBeforeAnyChange
 INVARIANT ExactlyOneTerminalSignal
 INVARIANT EvolvedIffSaved
 INVARIANT PairedUnlessFailed
+INVARIANT EndSignalsTruthful
 INVARIANT NoTerminalWithoutEvolving
 INVARIANT NoPartialAtRest
 ''' % (maxver, maxruns, 'TRUE' if faults else 'FALSE',
